@@ -110,7 +110,7 @@ def parents_of(cls):
     return PARENTS.get(cls, [])
 
 
-CFG = {'all_parents': False}
+CFG = {'all_parents': False, 'deep': False}
 VALIDATION_ERRORS = ('NotValid', 'MustValueError', 'OutsideCardinality', 'ShouldValueError', 'ValueError')
 
 
@@ -154,12 +154,23 @@ def evaluate(names):
                     st, exc = validates(px)
                     if st == 'ok':
                         bad.append((desc + ['under', schema.cname(p)], 'violation-accepted-when-nested'))
+                    if CFG['deep']:
+                        # one level deeper: the parent itself nested under one of its own parents
+                        for g, gmember, g_list in parents_of(p):
+                            gx = schema.base_instance(g, 1)
+                            if validates(gx)[0] != 'ok':
+                                continue
+                            setattr(gx, gmember, [px] if g_list else px)
+                            n += 1
+                            if validates(gx)[0] == 'ok':
+                                bad.append((desc + ['under', schema.cname(p), 'under', schema.cname(g)], 'violation-accepted-when-nested'))
         res.append((cn, n, bad, base_ok))
     return res
 
 
 def run(ctx):
-    CFG['all_parents'] = ctx.thorough
+    CFG['all_parents'] = True
+    CFG['deep'] = ctx.thorough
     classes = schema.discover()
     names = sorted(schema.cname(c) for c in classes)
     chunks = [names[i:i + 24] for i in range(0, len(names), 24)]
@@ -184,7 +195,7 @@ def run(ctx):
         'coverage': {
             'evaluations': n, 'distinct_nontrivial': len(nontriv), 'exhaustive': True, 'classes': len(classes),
             'classes_whose_base_instance_validates': n_base_ok, 'constraint_violation_cases': n_constraints,
-            'rule': 'for every schema class: the base instance (all declared attributes and children, type-appropriate values) must validate without raising anything that is not a validation error; then every declared constraint - required attribute missing / empty, child count min-1, child count max+1, attribute or text of a checked simple type (dateTime, boolean, integer kinds, duration) with each ill-typed value, enumeration with a foreign value - is violated in isolation at the root and nested under %s, and valid_instance() must raise; non-trivial counts distinct classes with at least one constraint' % ('every class that can contain it' if ctx.thorough else 'one class that can contain it'),
+            'rule': 'for every schema class: the base instance (all declared attributes and children, type-appropriate values) must validate without raising anything that is not a validation error; then every declared constraint - required attribute missing / empty, child count min-1, child count max+1, attribute or text of a checked simple type (dateTime, boolean, integer kinds, duration) with each ill-typed value, enumeration with a foreign value - is violated in isolation at the root and nested under %s, and valid_instance() must raise; non-trivial counts distinct classes with at least one constraint' % ('every class that can contain it and, one level deeper, under every container of that class' if ctx.thorough else 'every class that can contain it'),
             'samples': [{'class': res[0][0][0], 'cases': res[0][0][1]}],
         },
         'assumptions': ['constraints = what the class tables declare (c_attributes required flag, c_cardinality, declared simple types); children without a c_cardinality entry have no declared bound',
